@@ -22,10 +22,13 @@ use wallet::encryption::{decrypt_private_key, encrypt_private_key};
 use ant_bootstrap::{craft_valid_multiaddr_from_str, BootstrapCacheConfig, BootstrapCacheStore};
 use ant_evm::{AttoTokens, EvmError};
 use ant_node_manager::add_services::config::PortRange;
-use ant_node_manager::helpers::increment_port_option;
-use ant_protocol::storage::{RecordHeader, RecordKind, ScratchpadAddress};
-use ant_registers::RegisterAddress;
-use ant_service_management::NodeRegistry;
+use ant_evm::ProofOfPayment;
+use ant_node_manager::helpers::{check_port_availability, get_start_port_if_applicable, increment_port_option};
+use ant_protocol::storage::{
+    try_deserialize_record, try_serialize_record, Chunk, RecordHeader, RecordKind, Scratchpad, ScratchpadAddress, Transaction,
+};
+use ant_registers::{RegisterAddress, SignedRegister};
+use ant_service_management::{NodeRegistry, NodeServiceData};
 use autonomi::client::address::{addr_to_str, str_to_addr, DataError};
 use autonomi::client::data::DataMapChunk;
 use libp2p::multiaddr::Protocol;
@@ -283,6 +286,42 @@ fn run(case: &Value) -> Value {
             let p = case["p"].as_u64().map(|p| p as u16);
             json!({"r": increment_port_option(p)})
         }
+        // consumers of a PortRange: check_port_availability against the ports recorded for existing services,
+        // get_start_port_if_applicable
+        "port_avail" => {
+            let range = if let Some(s) = case.get("bytes") {
+                let _ = s;
+                match PortRange::parse(&input_string(case)) {
+                    Ok(r) => r,
+                    Err(_) => return json!({"r": "parse-err"}),
+                }
+            } else if let Some(p) = case.get("single").and_then(|p| p.as_u64()) {
+                PortRange::Single(p as u16)
+            } else {
+                PortRange::Range(case["range"][0].as_u64().unwrap() as u16, case["range"][1].as_u64().unwrap() as u16)
+            };
+            // service records: the generator's seed node with the three port fields replaced
+            let Ok(seed) = serde_json::from_str::<NodeServiceData>(case["node_json"].as_str().unwrap()) else {
+                return json!({"r": "seed-rejected"});
+            };
+            let nodes: Vec<NodeServiceData> = case["nodes"]
+                .as_array()
+                .unwrap()
+                .iter()
+                .map(|t| {
+                    let mut n = seed.clone();
+                    n.metrics_port = t[0].as_u64().map(|p| p as u16);
+                    n.node_port = t[1].as_u64().map(|p| p as u16);
+                    n.rpc_socket_addr.set_port(t[2].as_u64().unwrap() as u16);
+                    n
+                })
+                .collect();
+            let start = get_start_port_if_applicable(Some(range.clone()));
+            let mut j = port_json(&range);
+            j["avail"] = json!(check_port_availability(&range, &nodes).is_ok());
+            j["start"] = json!(start);
+            j
+        }
         // ------------------------------------------------------------------ amounts (model: Amount.v, C16)
         "amount_from_str" => match AttoTokens::from_str(&input_string(case)) {
             Ok(a) => json!({"code": 0, "v": a.as_atto().to_string()}),
@@ -404,6 +443,44 @@ fn run(case: &Value) -> Value {
             match RecordHeader::from_record(&rec) {
                 Ok(h) => json!({"r": "ok", "kind": kind_tag(h.kind), "oracle": oracle}),
                 Err(_) => json!({"r": "err", "oracle": oracle}),
+            }
+        }
+        // try_deserialize_record::<T> for every T the code base uses it with
+        "record_payload" => {
+            let v: Vec<u8> = if !case["valid_chunk"].is_null() {
+                let full = try_serialize_record(&Chunk::new(bytes::Bytes::from(bytes_of(&case["valid_chunk"]))), RecordKind::Chunk)
+                    .unwrap()
+                    .to_vec();
+                match case["cut"].as_u64() {
+                    Some(n) => full[..(n as usize).min(full.len())].to_vec(),
+                    None => full,
+                }
+            } else {
+                bytes_of(&case["bytes"])
+            };
+            let rec = libp2p::kad::Record::new(libp2p::kad::RecordKey::new(&[0u8; 32]), v.clone());
+            macro_rules! probe {
+                ($t:ty) => {{
+                    // the decoder oracle, asked directly on the bytes after the header
+                    let oracle = if v.len() > RecordHeader::SIZE {
+                        Some(rmp_serde::from_slice::<$t>(&v[RecordHeader::SIZE..]).is_ok())
+                    } else {
+                        None
+                    };
+                    json!({"r": if try_deserialize_record::<$t>(&rec).is_ok() { "ok" } else { "err" },
+                           "oracle": oracle, "value": v})
+                }};
+            }
+            match case["t"].as_str().unwrap() {
+                "chunk" => probe!(Chunk),
+                "scratchpad" => probe!(Scratchpad),
+                "transactions" => probe!(Vec<Transaction>),
+                "register" => probe!(SignedRegister),
+                "paid_chunk" => probe!((ProofOfPayment, Chunk)),
+                "paid_scratchpad" => probe!((ProofOfPayment, Scratchpad)),
+                "paid_transaction" => probe!((ProofOfPayment, Transaction)),
+                "paid_register" => probe!((ProofOfPayment, SignedRegister)),
+                other => json!({"error": format!("unknown type {other}")}),
             }
         }
         other => json!({"error": format!("unknown op {other}")}),
